@@ -71,6 +71,7 @@ def case_strategy(names):
         "out": st.sampled_from(["new", "existing", "stdout"]),
         "invalid": st.one_of(st.none(), invalid),
         "pos": st.integers(0, 4),
+        "order": st.sampled_from(["opts-file-out", "out-opts-file", "file-out-opts", "opts-out-file", "file-opts-out"]),
     })
 
 
@@ -102,15 +103,17 @@ def build_argv(case, infile, outfile):
             if arg.startswith("-") or arg == "":
                 arg = "x" + arg
             items.insert(min(case["pos"], len(items)), ["-C", arg] if case["pos"] % 2 else ["-C" + arg])
+    opts = []
     for it in items:
-        argv += it
-    argv.append(infile)
+        opts += it
     if case["dep"] is not None and dep_bad is None:
-        argv += ["--unparser", case["dep"]]
+        opts += ["--unparser", case["dep"]]
     if dep_bad is not None:
-        argv += ["--unparser", dep_bad]
-    if case["out"] != "stdout":
-        argv += ["-o", outfile]
+        opts += ["--unparser", dep_bad]
+    out = ["-o", outfile] if case["out"] != "stdout" else []
+    parts = {"opts": opts, "file": [infile], "out": out}
+    for key in case.get("order", "opts-file-out").split("-"):
+        argv += parts[key]
     return argv
 
 
@@ -213,7 +216,7 @@ BAD_VALUES = ["", "AST.UNPARSE", "Oneliner", "oneliner ", " list", "If_expr", "n
 def fixed_cases():
     """the finite invalid matrix, swept completely on every run"""
     out = []
-    base = {"prog": "if_else", "eol": "\n", "tail": "", "opts": [], "dep": None, "pos": 0}
+    base = {"prog": "if_else", "eol": "\n", "tail": "", "opts": [], "dep": None, "pos": 0, "order": "opts-file-out"}
     for outmode in ("new", "existing", "stdout"):
         for n in sorted(OPTIONS):
             for v in BAD_VALUES:
@@ -230,6 +233,10 @@ def fixed_cases():
             # an invalid item AFTER valid ones must still abort before anything is written
             out.append(dict(base, out=outmode, invalid=inv, pos=2,
                             opts=[("unparser", "oneliner", True), ("expr_wrapper", "list", False)]))
+            # ... and so must one that FOLLOWS the -o argument on the command line
+            out.append(dict(base, out=outmode, invalid=inv, order="out-opts-file"))
+            out.append(dict(base, out=outmode, invalid=inv, order="file-out-opts", pos=1,
+                            opts=[("if_style", "short_circuit", False)]))
     # valid: every option combination through both spellings
     for key in env.ALL_CFGS:
         for joined in (True, False):
@@ -250,7 +257,7 @@ def _shard(item):
                 diffs, argv = check_case(case, workdir)
                 inv = is_really_invalid(case)
                 part["classes"]["fixed:" + (case["invalid"][0] if inv else "valid")] += 1
-                part["nontrivial"].add(key_hash("fixed", case["prog"], case["out"], case["opts"], case["invalid"]))
+                part["nontrivial"].add(key_hash("fixed", case["prog"], case["out"], case["opts"], case["invalid"], case["order"], case["pos"]))
                 if diffs and len(part["violations"]) < 3:
                     part["violations"].append({"payload": {"kind": "cli", "case": case}, "diffs": diffs,
                                                "what": "command line %s" % ("accepts/acts on an invalid option list" if inv else "result differs from the API")})
@@ -263,7 +270,7 @@ def _shard(item):
             part["classes"]["invalid:" + case["invalid"][0] if inv else "valid:%d-opts" % len(case["opts"])] += 1
             part["classes"]["out:" + case["out"]] += 1
             if inv or case["opts"] or case["dep"]:
-                part["nontrivial"].add(key_hash(case["prog"], argv[3:-1] if case["out"] == "stdout" else argv[3:]))
+                part["nontrivial"].add(key_hash(case["prog"], case["order"], case["out"], tuple(map(tuple, case["opts"])), case["dep"], case["invalid"]))
             if len(part["samples"]) < 2 and (inv or len(case["opts"]) > 1):
                 part["samples"].append({"program": case["prog"], "argv": [a if not a.startswith("/tmp") else os.path.basename(a) for a in argv[1:]],
                                         "expect": "rejected, output untouched" if inv else "bytes == API result"})
